@@ -1743,7 +1743,7 @@ _FILE_CAUSES = ('direct', 'below-list', 'below-map')
 # are printed without `@class DBXItem;`. Until decided these three (backend, cause) pairs are COUNTED
 # (`not_judged.file_closure.*`), not judged; C17_FILE_CLOSURE_ALL=1 judges them too. Everything else -- every class named
 # directly, every class below a list in the routes headers -- is judged.
-FILE_CLOSURE_OPEN = {('obj_c_client', 'below-map'), ('obj_c_types', 'below-map'), ('obj_c_types', 'below-list')}
+FILE_CLOSURE_OPEN = set()    # the three pairs found on the unchanged tree are judged and listed in KNOWN_FINDINGS.jsonl
 
 
 def _generic_context(toks, i):
